@@ -301,6 +301,17 @@ def directed(recvs, by_name, k):
                dict(post=[False, "cm_id"]), dict(post=[True, "ca_ok"]), dict(post=[True, "ca_fail"]), dict(auk=True),
                dict(from_word=True), dict(from_none=True), dict(from_word=True, from_none=True, cdefault="explicit", auk=True)):
         add_struct(sink(), **kw)
+    # newtype receivers under every container-level post-transform (the generated from_meta of a newtype has its own shape)
+    for post in (None, [False, "cm_id"], [True, "ca_ok"], [True, "ca_fail"]):
+        for inner in (L("u8"), O(L("String")), Rv(deep)):
+            nonlocal_k = len(recvs)
+            name = "R%d" % k
+            k += 1
+            x = {"name": name, "kind": "newtype", "trait": "FromMeta", "inner": inner, "has_default": True, "all_names": [],
+                 "depth": 1 + ty_depth(inner, by_name),
+                 "cinfo": {"rename_all": None, "default": None, "post": post, "auk": False, "from_word": None, "from_none": None}}
+            recvs.append(x)
+            by_name[name] = x
     add_enum([{"ident": "Sink", "style": "struct", "fields": sink(False)}, {"ident": "Drain", "style": "unit"}], rule="camelCase")
     add_enum([{"ident": "Sink", "style": "struct", "fields": sink(False)}, {"ident": "Other", "style": "struct", "fields": sink(False), "skip": True}],
              auk=True)
